@@ -139,6 +139,10 @@ func runSelfCase(exe, id, dir string, c selfCase) SelfTestResult {
 	repoCopy := filepath.Join(tmp, "repo")
 	vdCopy := filepath.Join(tmp, "vd")
 	os.MkdirAll(vdCopy, 0o755)
+	// the listed known findings apply to the patched copies as well (a case must show something beyond them)
+	if kf, err := os.ReadFile(filepath.Join(verifDir(), "known_findings.json")); err == nil {
+		os.WriteFile(filepath.Join(vdCopy, "known_findings.json"), kf, 0o644)
+	}
 	if out, err := exec.Command("rsync", "-a", "--exclude", ".git", dir+"/", repoCopy+"/").CombinedOutput(); err != nil {
 		res.Detail = "copy failed: " + string(out)
 		return res
